@@ -218,23 +218,31 @@ class NslParser:
         """unary_expression : PLUSPLUS ID
         | MINUSMINUS ID"""
 
-        p[2] = ast.PrimaryExpression(p[2])
-        p[2].SetLocation(self.__GetLocation(p, 1))
+        identifier = ast.PrimaryExpression(p[2])
+        identifier.SetLocation(self.__GetLocation(p, 2))
         if p[1] == "++":
-            p[0] = ast.AffixExpression(op.Operation.ADD, p[2], ast.Affix.PRE)
+            p[0] = ast.AffixExpression(
+                op.Operation.ADD, identifier, ast.Affix.PRE
+            )
         elif p[1] == "--":
-            p[0] = ast.AffixExpression(op.Operation.SUB, p[2], ast.Affix.PRE)
+            p[0] = ast.AffixExpression(
+                op.Operation.SUB, identifier, ast.Affix.PRE
+            )
 
     def p_unary_expression_4(self, p):
         """unary_expression : ID PLUSPLUS
         | ID MINUSMINUS"""
 
-        p[1] = ast.PrimaryExpression(p[1])
-        p[1].SetLocation(self.__GetLocation(p, 2))
+        identifier = ast.PrimaryExpression(p[1])
+        identifier.SetLocation(self.__GetLocation(p, 1))
         if p[2] == "++":
-            p[0] = ast.AffixExpression(op.Operation.ADD, p[1], ast.Affix.POST)
+            p[0] = ast.AffixExpression(
+                op.Operation.ADD, identifier, ast.Affix.POST
+            )
         elif p[2] == "--":
-            p[0] = ast.AffixExpression(op.Operation.SUB, p[1], ast.Affix.POST)
+            p[0] = ast.AffixExpression(
+                op.Operation.SUB, identifier, ast.Affix.POST
+            )
 
     def p_expression_opt_1(self, p):
         """expression_opt : expression"""
